@@ -20,7 +20,14 @@ struct Tally {
     samples: Vec<Value>,
 }
 
+fn announce(name: &str) {
+    use std::io::Write;
+    println!("@@TYPE {}", name);
+    let _ = std::io::stdout().flush();
+}
+
 fn check_codec<T: Encode + Decode + PartialEq + Debug + Clone>(t: &mut Tally, name: &str, values: &[T], pair_cap: usize) {
+    announce(name);
     let mut evals = 0u64;
     let mut encs: Vec<Vec<u8>> = Vec::with_capacity(values.len());
     for v in values {
@@ -118,6 +125,7 @@ fn check_order<T: Encode + Ord + Debug>(t: &mut Tally, name: &str, keys: &[T]) {
 }
 
 fn check_json<T: serde::Serialize + serde::de::DeserializeOwned + Debug>(t: &mut Tally, name: &str, values: &[T]) {
+    announce(&format!("{} (JSON)", name));
     let mut n = 0u64;
     for v in values {
         let r = catch_unwind(AssertUnwindSafe(|| {
@@ -273,7 +281,45 @@ fn real_data_pass(t: &mut Tally) {
     crate::inst::cleanup_scratch();
 }
 
+/// The grids run in a child process: a decoder that reads a length prefix from the wrong place can ask for an
+/// allocation that aborts the process, which must be a verdict and not a dead check.
 pub fn run(tier: &str, seed: u64) -> i32 {
+    if std::env::var("VMC_C14_CHILD").is_ok() {
+        return run_grids(tier, seed);
+    }
+    let t0 = Instant::now();
+    let exe = std::env::current_exe().expect("exe");
+    let out = std::process::Command::new(exe).arg("check").arg("C14").arg(tier).env("VMC_C14_CHILD", "1").stderr(std::process::Stdio::inherit()).output();
+    let out = match out {
+        Ok(o) => o,
+        Err(e) => {
+            eprintln!("MACHINERY-ERROR: cannot start the grid process: {}", e);
+            return 3;
+        }
+    };
+    let text = String::from_utf8_lossy(&out.stdout).to_string();
+    for l in text.lines().filter(|l| !l.starts_with("@@TYPE ")) {
+        println!("{}", l);
+    }
+    match out.status.code() {
+        Some(c) if c == 0 || c == 1 || c == 3 => c,
+        other => {
+            // killed by a signal / aborted: the type that was being processed is the last one announced
+            let last = text.lines().rev().find_map(|l| l.strip_prefix("@@TYPE ")).unwrap_or("<before the first type>").to_string();
+            let v = crate::explore::Violation { property: "C14".into(), kind: format!("abort-{}", last), scenario: "codec".into(), start: "".into(), path: vec![last.clone()], steps: vec![], detail: format!("the process died (status {:?}) while values of type {} were being encoded / decoded: a decoder asked for an impossible allocation or overflowed the stack", other, last) };
+            let mut ev = Evidence::new("C14", tier, seed, "exploration");
+            ev.coverage = json!({"evaluations": 0, "distinct_nontrivial": 0, "rule": "stopped: the grid process died", "samples": [], "types": [], "died_at": last});
+            ev.violations = 1;
+            ev.wall_s = t0.elapsed().as_secs_f64();
+            ev.write();
+            println!("VIOLATION property=C14 replay={}", crate::evidence::write_replay(&v));
+            println!("  {} {}", v.kind, v.detail);
+            1
+        }
+    }
+}
+
+fn run_grids(tier: &str, seed: u64) -> i32 {
     let t0 = Instant::now();
     let mut t = Tally::default();
     let thorough = tier == "thorough";
